@@ -26,6 +26,7 @@ class Acc:
         self.viols = []
         self.notes = []
         self.jobs = []
+        self.outcomes = {}     # job -> list of distinct outcome strings of the exploration
         self.exists = {}       # job -> mask of existential facts reached by some execution
         self.incomplete = []   # names of bounds that were not completed (deadline / cap)
 
@@ -55,6 +56,8 @@ class Acc:
             elif t == "viol":
                 o["job"] = job
                 self.viols.append(o)
+            elif t == "outcomes":
+                self.outcomes[job] = o.get("list", [])
             elif t == "exists":
                 self.exists[job] = self.exists.get(job, 0) | int(o.get("mask", 0))
             elif t == "incomplete":
